@@ -206,6 +206,24 @@ func TestVerifC18_API(t *testing.T) {
 			if want := vgtSortedSet(wantRows); !vgtEqU64(gotRows, want) {
 				t.Fatalf("quantum %s noStandardView=%v bits %v:\n%s = %v, want %v", q, noStd, bits, calls[len(rowsAsked)], gotRows, want)
 			}
+			// Rows with an upper bound only: the lower end is the earliest view, so the answer is the rows having a
+			// timestamp before `to` (no wall clock involved; Row(f=r, to=) walks up from year 1 and is left out for cost)
+			{
+				want := map[uint64]bool{}
+				for _, b := range bits {
+					if !b.TS.IsZero() && b.TS.Before(to) {
+						want[b.Row] = true
+					}
+				}
+				call := fmt.Sprintf("Rows(f, to=%s)", toS)
+				res, err := srv.query(index, call)
+				if err != nil {
+					t.Fatalf("quantum %s noStandardView=%v bits %v: query %q failed: %v", q, noStd, bits, call, err)
+				}
+				if got := vgtRowIDs(t, res[0], call); !vgtEqU64(got, vgtSortedSet(want)) {
+					t.Fatalf("quantum %s noStandardView=%v bits %v:\n%s = %v, want %v", q, noStd, bits, call, got, vgtSortedSet(want))
+				}
+			}
 			// Rows restricted to one column
 			if len(bits) > 0 {
 				col := bits[rapid.IntRange(0, len(bits)-1).Draw(t, l+".colOf")].Col
